@@ -77,7 +77,7 @@ CHECKS.update({
         script='checks/c10.py', category='model_checking', design='DESIGN.md §4 C10',
         text=('The real ZoneRegistrar and ZoneManagerImpl templates on the IR, instantiated with a comparator over 4-byte '
               'keys whose result is symbolic (right sign, magnitude 1..127); registry keys, zone ids, probe key/id/index are '
-              'solver variables, registry size n is a concrete case split (0..12,16,33 quick; 0..20,24,28,32,33,40 thorough), '
+              'solver variables, registry size n is a concrete case split (0..12,16,33 quick; 0..20,24,28,32,33 thorough), '
               'sorted and unsorted. Exactness, not-found, termination (unwinding assertions) and in-bounds registry reads '
               '(memory model) are decided per path by SMT; the shipped registries are additionally run with the real strcmp.'),
         technique='symbolic execution of clang LLVM IR (llsym) + SMT; bounds-checked memory model; unwinding assertions',
